@@ -84,6 +84,9 @@ func (s SessionCrypter) Decrypt(rand io.Reader, r io.Reader) ([]byte, error) {
 		if err := cbor.Unmarshal([]byte(tag.Val), &mac0); err != nil {
 			return nil, fmt.Errorf("error decoding COSE_Mac0: %w", err)
 		}
+		if mac0.Payload == nil {
+			return nil, fmt.Errorf("COSE_Mac0 has no payload")
+		}
 		expectedDigest := mac0.Value
 		if err := mac0.Digest(s.Cipher.MacAlg, s.SVK, nil, nil); err != nil {
 			return nil, fmt.Errorf("error computing COSE_Mac0 tag for comparison: %w", err)
